@@ -519,6 +519,19 @@ def float_boundaries(ctx):
             "179769313486231580793728971405303415079934132710037826936173778980444968292764750946649017977587207096330286416692887910946555547851940402630657488671505820681908902000708383676273854845817711531764475730270069855571366959622842914819860834936475292719074168444365510704342711559699508093042880177904174497791.9999999999999999999999",
             "179769313486231580793728971405303415079934132710037826936173778980444968292764750946649017977587207096330286416692887910946555547851940402630657488671505820681908902000708383676273854845817711531764475730270069855571366959622842914819860834936475292719074168444365510704342711559699508093042880177904174497792.0",
             "0.5e-323", "2.47e-324", "2.48e-324", "0." + "0" * 323 + "24703282292062327208051355972539", "0." + "0" * 323 + "24703282292062328"]
+    # integer-FORM spellings (no '.', no exponent) of values at the conversion boundaries, as imaginary and float literals:
+    # `<digits>j` is converted from the digit run, not by the float path (f64::MAX, the overflow tie 2^1024 - 2^970 and its
+    # neighbours, 2^53 + odd, 2^64 region, powers of ten around 1e308)
+    MAXI = (2 ** 53 - 1) * 2 ** 971
+    TIE = 2 ** 1024 - 2 ** 970
+    for v in (MAXI - 1, MAXI, MAXI + 1, MAXI + 2 ** 969, MAXI + 2 ** 960, TIE - 1, TIE, TIE + 1, 2 ** 1024 - 1, 2 ** 1024, 10 ** 308, 10 ** 309 - 1,
+              10 ** 309, 2 ** 53, 2 ** 53 + 1, 2 ** 53 + 2, 2 ** 53 + 3, 2 ** 64, 2 ** 64 + 2 ** 11, 2 ** 64 + 2 ** 11 + 1, 2 ** 64 + 3 * 2 ** 11,
+              2 ** 1023, 2 ** 1023 + 2 ** 970, 2 ** 1023 + 2 ** 970 + 1, int("17976931348623158" + "0" * 292), int("17976931348623157" + "9" * 292)):
+        d = str(v)
+        u = "_".join(d[i:i + 3] for i in range(0, len(d), 3))
+        out += [d + "j", d + "J", u + "j", "0" + d + "j", "00" + d + "J", d + ".", d + ".j", d + ".0", d + "e0", d + "e0j", d + ".0e0J", "0" + d + ".0"]
+    # imaginary twin of a sample of the boundary floats above
+    out += [t + "j" for t in out[::7] if t[-1] not in "jJ"]
     return out
 
 
